@@ -179,6 +179,8 @@ __CPROVER_assigns(*zp, *xp, *xn)
 /* re-binds the advanced cursor to the input object when the contract replaces a call (dfcc loses the points-to set otherwise) */
 __CPROVER_ensures(__CPROVER_pointer_in_range_dfcc(__CPROVER_old(*xp), *xp, __CPROVER_old(*xp) + __CPROVER_old(*xn)))
 __CPROVER_ensures(__CPROVER_return_value == (__CPROVER_old(*xn) >= zn ? 1 : 0))
+/* the returned payload pointer is re-bound to the input object as well */
+__CPROVER_ensures(__CPROVER_return_value != 1 || __CPROVER_pointer_in_range_dfcc(__CPROVER_old(*xp), *zp, __CPROVER_old(*xp) + __CPROVER_old(*xn)))
 __CPROVER_ensures(__CPROVER_return_value == 1 ==> (*zp == __CPROVER_old(*xp) && *xp == __CPROVER_old(*xp) + zn && *xn == __CPROVER_old(*xn) - zn))
 __CPROVER_ensures(__CPROVER_return_value == 0 ==> (*xp == __CPROVER_old(*xp) && *xn == __CPROVER_old(*xn)))
 ;
